@@ -115,6 +115,32 @@ def semiPieces : Option Char → Line → Line → List Line
       else semiPieces (if x = '\'' || x = '"' then some x else none) (lowerC x :: cur) xs
   | some q, cur, x :: xs => semiPieces (if x = q then none else some q) (x :: cur) xs
 
+/-- characters up to the parenthesis closing the group opened just before (`depth` open groups), outside literals -/
+def takeGroup : Option Char → Nat → Line → Line → Option (Line × Line)
+  | _, _, _, [] => none
+  | some q, d, acc, x :: xs => takeGroup (if x = q then none else some q) d (x :: acc) xs
+  | none, d, acc, x :: xs =>
+      if x = ')' || x = ']' then
+        if d = 0 then some (acc.reverse, xs) else takeGroup none (d - 1) (x :: acc) xs
+      else if x = '(' || x = '[' then takeGroup none (d + 1) (x :: acc) xs
+      else takeGroup (if x = '\'' || x = '"' then some x else none) d (x :: acc) xs
+
+/-- `string_replace_map` + `apply_map`: the content of every top-level parenthesis group that is not a plain
+name comes back stripped -/
+def trimGroups : Nat → Option Char → Line → Line
+  | 0, _, l => l
+  | _, _, [] => []
+  | f + 1, some q, x :: xs => x :: trimGroups f (if x = q then none else some q) xs
+  | f + 1, none, x :: xs =>
+      if x = '(' || x = '[' then
+        match takeGroup none 0 [] xs with
+        | some (content, rest) =>
+            let inner := strip content
+            let close := if x = '(' then ')' else ']'
+            (x :: (if inner.all isWord then content else inner)) ++ (close :: trimGroups f none rest)
+        | none => x :: xs
+      else x :: trimGroups f (if x = '\'' || x = '"' then some x else none) xs
+
 /-- `_next`: statement texts of one source item; `none` = the reader raises and stops -/
 def splitSemi (content : Line) : Option (List Line) :=
   if hasOutside ';' none content then
@@ -122,7 +148,9 @@ def splitSemi (content : Line) : Option (List Line) :=
     | [] => none
     | f :: rest =>
       if (strip f).isEmpty then none
-      else some (strip f :: (rest.map strip |>.filter (!·.isEmpty) |>.map (fun p => strip (stripLabelName p))
+      else
+        let fix (p : Line) : Line := trimGroups (p.length + 1) none p
+        some (fix (strip f) :: (rest.map strip |>.filter (!·.isEmpty) |>.map (fun p => fix (strip (stripLabelName p)))
                   |>.filter (!·.isEmpty)))
   else some [content]
 
@@ -160,6 +188,12 @@ def andThen (e : Option (List Item)) (k : List Item) : List Item :=
   | none => []
   | some is => is ++ k
 
+/-- comment item of a physical line -/
+def comOf (o : Option Line) (n : Nat) : List Item :=
+  match o with
+  | some c => [⟨true, c, n, n⟩]
+  | none => []
+
 /-- the item stream of fparser's free-form reader over numbered physical lines -/
 def go : List (Nat × Line) → Option Pend → List Item
   | [], none => []
@@ -170,7 +204,7 @@ def go : List (Nat × Line) → Option Pend → List Item
         andThen (emit l n n []) (go rest none)
       else
         let sc := scanCode none (stripLabelName l)
-        let coms := match sc.2.1 with | some c => [⟨true, c, n, n⟩] | none => []
+        let coms := comOf sc.2.1 n
         let t := trailing sc.1
         if t.2 then go rest (some ⟨t.1, n, n, sc.2.2, coms⟩)
         else andThen (emit t.1 n n coms) (go rest none)
@@ -180,7 +214,7 @@ def go : List (Nat × Line) → Option Pend → List Item
       else if (lstrip l).isEmpty then go rest (some p)
       else
         let sc := scanCode p.q l
-        let coms := p.coms ++ (match sc.2.1 with | some c => [⟨true, c, n, n⟩] | none => [])
+        let coms := p.coms ++ comOf sc.2.1 n
         let t := trailing sc.1
         let acc := p.acc ++ leading t.1
         if t.2 then go rest (some ⟨acc, p.l1, n, sc.2.2, coms⟩)
